@@ -19,7 +19,7 @@ import Octo.Model.Coalesce
   * "obj->field on a multi-alternative union read field 0" (Materialize takes the fields of `NonNullable(object type)`),
   * "aggregate overload resolution over nullable union arguments" (the maybe pass tests `NonNullable(type)` against the
     overload and asserts `ArgumentType | NULL`),
-  * "the maybe pass skips TypeFn descriptors".
+  * "overloads with a type function never match in the second resolution pass" (the maybe pass skips `TypeFn` descriptors).
   The shipped behaviour of the two C08 defects is kept as `fieldNamesRaw` / `aggMaybeRaw` for the refutation theorems.
 
   The function table is a parameter (`Sig`): descriptors (`ArgumentTypes`, `OutputType`, `Strict`, `TypeFn`) and bodies.
